@@ -169,7 +169,9 @@ func c07Exhaustive(c *Ctx, r *RNG) {
 						g := o
 						g.codec = sup
 						supplied = VL{VT("gen"), g.val(), VB(ar.payload)}
-						idxIDs = true
+						if front != 2 { // in "both" mode the storage half still uses the container's own index
+							idxIDs = true
+						}
 					}
 					qs := c07Queries(front, keys)
 					expect := VL{VT("valid"), cidsVal(ar.roots), blksVal(ar.blks), vbool(idxIDs)}
